@@ -2080,17 +2080,32 @@ func rootVarDecl(expr ast.Expression) *ast.VarDecl {
 	}
 }
 
+// reports whether expr mentions the variable decl anywhere
+func mentionsVar(expr ast.Expression, decl *ast.VarDecl) bool {
+	found := false
+	ast.VisitNode(ast.IdentVisitorFunc(func(ident *ast.Ident) ast.VisitResult {
+		if varDecl, ok := ident.Declaration.(*ast.VarDecl); ok && varDecl == decl {
+			found = true
+			return ast.VisitBreak
+		}
+		return ast.VisitRecurse
+	}), expr, nil)
+	return found
+}
+
 // reports whether the storage of arg itself may be handed to a parameter the callee only reads:
 // arg must be (part of) a local variable that nothing else can reach while the callee runs,
 // so not a global, not a reference parameter of the current function
-// and not (part of) a variable that is also passed by reference in the same call
+// and not a variable that any other argument of the same call mentions:
+// it may be passed by reference there, to this call or to a call nested in that argument,
+// which is evaluated after arg and may change the variable
 func (c *compiler) mayElideArgCopy(call *ast.FuncCall, arg ast.Expression) bool {
 	root := rootVarDecl(arg)
 	if root == nil || root.IsGlobal || c.scp.lookupVar(root).isRef {
 		return false
 	}
 	for _, param := range call.Func.Parameters {
-		if param.Type.IsReference && rootVarDecl(call.Args[param.Name.Literal]) == root {
+		if other := call.Args[param.Name.Literal]; other != arg && mentionsVar(other, root) {
 			return false
 		}
 	}
